@@ -154,7 +154,7 @@ def oracle(case, rec=None):
                         if iv and iv[-1][1] > ssize:
                             import constructs
 
-                            raise Violation("C12/scratch-span/stream%s" % constructs.tags(case["spec"]), "%s #%d touches arena byte %d but scratch spans %d" % (c.kind, c.index, iv[-1][1], ssize), case)
+                            raise Violation("C12/scratch-span/stream", "%s #%d touches arena byte %d but scratch spans %d" % (c.kind, c.index, iv[-1][1], ssize), case, tags=constructs.tags(case["spec"]))
         except csdec.DecodeError as e:
             raise Violation("C12/undecodable", str(e), case)
     # reported numbers
